@@ -17,6 +17,7 @@ import (
 	"verif/harness/c03"
 	"verif/harness/c07"
 	"verif/harness/c09"
+	"verif/harness/c10"
 	"verif/harness/c15"
 	"verif/harness/core"
 )
@@ -28,6 +29,7 @@ var runners = map[string]core.Runner{
 	"C03": c03.Runner,
 	"C07": c07.Runner,
 	"C09": c09.Runner,
+	"C10": c10.Runner,
 	"C15": c15.Runner,
 }
 
